@@ -72,7 +72,7 @@ def _prune_caches(keep):
                 pass
     entries.sort()
     # keep at most 5 other trees (mutants come and go); disk is limited
-    for _, p in entries[:-5] if len(entries) > 5 else []:
+    for _, p in entries[:-12] if len(entries) > 12 else []:
         shutil.rmtree(p, ignore_errors=True)
 
 
